@@ -17,7 +17,7 @@ def rets(P, fn):
 def run(chk, tier):
     P = Prog("default")
     chk.configs.add("default")
-    for r in (r_diff_months, r_month_direction, r_copy_ndt, r_zero_based, r_years_since, r_week, r_small, r_week_bounds, r_with_pairs, r_absint):
+    for r in (r_diff_months, r_month_direction, r_copy_ndt, r_zero_based, r_years_since, r_week, r_small, r_week_bounds, r_with_pairs, r_replace_map, r_absint):
         chk.guarded(r, P, tier)
     chk.assume("that clamping, n-th weekday and week bounds are numerically right for every date is not decided beyond the rules listed")
     return {
@@ -281,3 +281,97 @@ def r_with_pairs(chk, P, tier):
             field, sorted(withs), sorted(getters), field, field), loc=P.loc(name))
     if n < 11:
         raise AnchorLost("only %d DateTime::with_* closures found" % n)
+
+
+def r_replace_map(chk, P, tier):
+    """single-field replacement, whole years elapsed and the n-th weekday of a month as region-representative value maps. Their pieces are delimited by the month lengths
+    of the year class, ordinal 365/366, the argument ranges and (years_since) the order of the (month, day) keys. The def-use terms are folded (no execution) for one year per
+    year class (all 14) and years at both range ends, dates on both sides of every month end and of the leap day, with replacement values on both sides of every bound
+    (0, 1, 12, 13; 28..=32; 365..=367; the u32 / i32 ends), against the calendar oracle."""
+    import calendar_oracle as cal
+    from finmap import Folder, show, Unknown
+    from props.c01 import _date, _yof_of, _wd, flags_of
+    from rules import table_value
+    chk.rule("MAP.replace", "NaiveDate::with_year / _month(0) / _day(0) / _ordinal(0), years_since and from_weekday_of_month_opt folded on all region boundaries equal the calendar oracle", floor=9000)
+    fo = Folder(P, max_depth=12)
+    tbl = [flags_of(c) for c in table_value(P, "naive::internals::YEAR_TO_FLAGS")]
+    miny, maxy = P.value("naive::date::MIN_YEAR"), P.value("naive::date::MAX_YEAR")
+    DL = "<naive::date::NaiveDate as traits::Datelike>::"
+
+    def yof(y, o):
+        return (y << 13) | (o << 4) | tbl[y % 400]
+
+    def ymd(y, m, d):
+        return yof(y, cal.ordinal(y, m, d)) if miny <= y <= maxy and 1 <= m <= 12 and 1 <= d <= cal.days_in_month(y, m) else None
+    reps = {}
+    for y in range(2000, 2400):
+        reps.setdefault(tbl[y % 400], y)
+    years = sorted(reps.values())
+    quick = tier != "thorough"
+    bad = {}
+    n_ok = [0]
+
+    def fold(fn, args):
+        try:
+            return _yof_of(show(fo.call(fn, args)))
+        except Unknown as e:
+            return "unknown: %s" % e
+
+    def expect(cls, a, got, w):
+        if got == w:
+            n_ok[0] += 1
+        else:
+            bad.setdefault(cls, (a, got, w))
+    U32 = 2**32 - 1
+    leap_years = [y for y in years if cal.leap(y)]
+    common_years = [y for y in years if not cal.leap(y)]
+    setter_years = (leap_years[:2] + common_years[:2] if quick else years) + [miny, maxy]
+    for y in setter_years:
+        dates = [(1, 1), (1, 31), (2, 28), (3, 1), (3, 31), (4, 30), (8, 31), (12, 31)] + ([(2, 29)] if cal.leap(y) else [])
+        for (m, d) in dates:
+            base = ("ref", _date(ymd(y, m, d)))
+            for m2 in (0, 1, 2, 3, 4, 6, 9, 11, 12, 13, 16, U32):
+                expect("with_month", ((y, m, d), m2), fold(DL + "with_month", [base, ("const", m2)]), ymd(y, m2, d))
+                expect("with_month0", ((y, m, d), m2), fold(DL + "with_month0", [base, ("const", m2)]), ymd(y, m2 + 1, d) if m2 < U32 else None)
+            for d2 in (0, 1, 27, 28, 29, 30, 31, 32, U32):
+                expect("with_day", ((y, m, d), d2), fold(DL + "with_day", [base, ("const", d2)]), ymd(y, m, d2))
+                expect("with_day0", ((y, m, d), d2), fold(DL + "with_day0", [base, ("const", d2)]), ymd(y, m, d2 + 1) if d2 < U32 else None)
+            for o2 in (0, 1, 59, 60, 61, 364, 365, 366, 367, 511, 512, U32):
+                ok = 1 <= o2 <= cal.days_in_year(y)
+                expect("with_ordinal", ((y, m, d), o2), fold(DL + "with_ordinal", [base, ("const", o2)]), yof(y, o2) if ok else None)
+                ok0 = o2 < U32 and 1 <= o2 + 1 <= cal.days_in_year(y)
+                expect("with_ordinal0", ((y, m, d), o2), fold(DL + "with_ordinal0", [base, ("const", o2)]), yof(y, o2 + 1) if ok0 else None)
+            for y2 in years[:: (3 if quick else 1)] + [miny - 1, miny, maxy, maxy + 1, -(2**31), 2**31 - 1, 0, -1]:
+                expect("with_year", ((y, m, d), y2), fold(DL + "with_year", [base, ("const", y2)]), ymd(y2, m, d))
+    # whole years elapsed: later date vs base date on both sides of the anniversary, across the leap day
+    keys = [(1, 1), (2, 28), (2, 29), (3, 1), (6, 15), (12, 31)]
+    ys = (leap_years[:2] + common_years[:3] if quick else years) + [miny, maxy]
+    for y1 in ys:
+        for y2 in ys:
+            for (m1, d1) in keys:
+                for (m2, d2) in keys:
+                    a, b = ymd(y1, m1, d1), ymd(y2, m2, d2)
+                    if a is None or b is None:
+                        continue
+                    yrs = y1 - y2 - (1 if (m1, d1) < (m2, d2) else 0)
+                    w = yrs if yrs >= 0 else "Option::None"
+                    try:
+                        got = show(fo.call(ND + "years_since", [("ref", _date(a)), _date(b)]))
+                        got = got[1] if isinstance(got, tuple) and got[0] == "Option::Some" else got
+                    except Unknown as e:
+                        got = "unknown: %s" % e
+                    expect("years_since", ((y1, m1, d1), (y2, m2, d2)), got, w)
+    # n-th weekday of a month
+    for y in years:
+        for m in range(1, 13):
+            first_wd = cal.weekday(y, m, 1)
+            for wd in range(7):
+                for n in ((0, 1, 4, 5, 6) if quick else (0, 1, 2, 3, 4, 5, 6, 255)):
+                    day = 1 + (wd - first_wd) % 7 + (n - 1) * 7
+                    w = ymd(y, m, day) if n >= 1 else None
+                    expect("from_weekday_of_month_opt", (y, m, wd, n), fold(ND + "from_weekday_of_month_opt", [("const", y), ("const", m), _wd(P, wd), ("const", n)]), w)
+    for _ in range(n_ok[0]):
+        chk.ok("value")
+    for cls, (a, got, w) in sorted(bad.items()):
+        fnp = (DL + cls) if cls.startswith("with_") else ND + cls
+        chk.bad(cls, "%s%s folds to %s, the calendar gives %s" % (cls, a, got, w), loc=P.loc(fnp) if P.has(fnp) else None)
